@@ -437,9 +437,13 @@ class IMAPSearch:
                 if elt == msg_number:
                     return True
             elif isinstance(elt, tuple):
-                if isinstance(elt[1], str) and elt[1] == "*":
-                    elt = (elt[0], self.ctx.seq_max)
-                if msg_number >= elt[0] and msg_number <= elt[1]:
+                # Either end may be `*` (the last message) and a range may
+                # be written in either order: `a:b` means the same as `b:a`.
+                #
+                lo, hi = (self.ctx.seq_max if x == "*" else x for x in elt)
+                if lo > hi:
+                    lo, hi = hi, lo
+                if lo <= msg_number <= hi:
                     return True
         return False
 
@@ -563,8 +567,13 @@ class IMAPSearch:
                 if elt == uid:
                     return True
             elif isinstance(elt, tuple):
-                if isinstance(elt[1], str) and elt[1] == "*":
-                    elt = (elt[0], self.ctx.uid_max)
-                if uid >= elt[0] and uid <= elt[1]:
+                # Either end may be `*` (the highest UID) and a range may
+                # be written in either order: `n:*` with n above the highest
+                # UID still includes the last message.
+                #
+                lo, hi = (self.ctx.uid_max if x == "*" else x for x in elt)
+                if lo > hi:
+                    lo, hi = hi, lo
+                if lo <= uid <= hi:
                     return True
         return False
